@@ -53,6 +53,8 @@ ASSUMPTIONS = [
     "(translation equivariance of the returned values), so the rows of the table Jacobian must sum to "
     "(interp(V+c)-interp(V))/c; tables whose smallest relative slope difference is below 1e-9 (weights at round-off "
     "level) are judged in that direction only, between 1e-9 and 1e-3 the tolerance grows like 1e-3/gap; "
+    "control values are exactly zero or within three decades of their amplitude (cases whose non-zero entries span more "
+    "than six decades are discarded: subnormal products underflow and no round-off model applies); "
     "tables with two exactly equal consecutive slopes (constant / linear data) are likewise judged in the constant "
     "direction only: both Akima weights vanish there and the scheme is not differentiable in the table values (directional "
     "derivatives exist but are not linear in the direction), so no Jacobian can satisfy the property",
@@ -190,8 +192,8 @@ def has_equal_slopes(axes, table):
 
 
 def slope_rel_gap(axes, table):
-    """Smallest relative difference of two consecutive slopes along any grid line of the table (exactly equal pairs
-    are ignored here: has_equal_slopes handles them).  The Akima weights are these differences; when they sink to
+    """Smallest difference of two consecutive slopes along any grid line of the table, relative to the largest slope
+    of the table along that axis (exactly equal pairs are ignored here: has_equal_slopes handles them).  The Akima weights are these differences; when they sink to
     round-off level (gap ~ 1e-16, e.g. linear data on np.linspace control points) the weight ratios are noise."""
     table = np.asarray(table, dtype=float)
     gap = np.inf
@@ -201,10 +203,10 @@ def slope_rel_gap(axes, table):
         if m.shape[-1] < 2:
             continue
         d = np.abs(m[..., 1:] - m[..., :-1])
-        mag = np.maximum(np.abs(m[..., 1:]), np.abs(m[..., :-1]))
-        ok = (d > 0) & (mag > 0)
-        if ok.any():
-            gap = min(gap, float(np.min(d[ok] / mag[ok])))
+        mag = float(np.max(np.abs(m)))          # slope scale of the whole table along this axis
+        ok = d > 0
+        if ok.any() and mag > 0:
+            gap = min(gap, float(np.min(d[ok])) / mag)
     return gap
 
 
@@ -663,6 +665,11 @@ def check(case):
         judged = check_table(case, res, cls) if kind == 'table' else check_train(case, res, cls)
         res.nontrivial = judged > 0 and (dim >= 2 or nonuni)
     else:
+        for rows in (case['y'], case['dy']):
+            a = np.abs(np.array(rows, dtype=float))
+            if a.max() > 0 and np.any((a > 0) & (a < 1e-6 * a.max())):
+                # entries spanning > 6 decades (down to subnormals) put the formulas into the underflow regime
+                return _discard(res, cls, 'value-magnitudes-span-more-than-6-decades')
         if method != 'bsplines':
             xcp = list(map(float, case['xcp']))
             if len(xcp) < base.MIN_POINTS.get(method, 2) or not np.all(np.diff(xcp) > 0):
@@ -814,16 +821,22 @@ def strategy():
                 c['opts'] = {'delta_x': draw(st.sampled_from([0.0, 0.0, 0.1]))}
         amp = draw(st.sampled_from([1.0, 1e-3, 1e3]))
         ykind = draw(st.sampled_from(['rand'] * 6 + ['const', 'ramp']))
+
+        def val():
+            # exactly zero, or a magnitude within three decades of amp (DESIGN 2.2: bounded 'nice' floats)
+            if draw(st.integers(0, 7)) == 0:
+                return 0.0
+            return amp * draw(nice(1e-3, 1.0)) * draw(st.sampled_from([-1.0, 1.0]))
         rows = []
         for _ in range(vec):
             if ykind == 'rand':
-                rows.append([amp * draw(nice(-1.0, 1.0)) for _ in range(ncp)])
+                rows.append([val() for _ in range(ncp)])
             elif ykind == 'const':
                 rows.append([amp] * ncp)
             else:
                 rows.append([amp * float(i) for i in range(ncp)])
         c['y'] = rows
-        c['dy'] = [[amp * draw(nice(-1.0, 1.0).filter(lambda v: abs(v) > 1e-3)) for _ in range(ncp)]
+        c['dy'] = [[amp * draw(nice(1e-3, 1.0)) * draw(st.sampled_from([-1.0, 1.0])) for _ in range(ncp)]
                    for _ in range(vec)]
         return c
 
